@@ -45,7 +45,16 @@ def main() -> int:
         return 2
     try:
         pkg = Package()
+        from .checks import grlib
+        grlib.set_package(pkg)
         mod.run(run, pkg)
+        from .vg import show as _show
+        for t, v in list(grlib.INLINE_IMAGES.items()):
+            if v[0] == "bad":
+                run.ob("R-PBC", "inline minimum image", _show(t)[:70], False, "an inline re-implementation of the minimum image equals R - (mask (.) nearest(R H^-1)) H "
+                       "(rows of H are the cell vectors)", _show(t)[:200], witness=v[1])
+            elif v[0] == "ok":
+                run.ob("R-PBC", "inline minimum image", _show(t)[:70], True, "inline re-implementation of the minimum image verified against the reference form (frame typing + algebra)", "")
         if tier == "thorough" and not a.replay and not os.environ.get("VERIF_NO_SELFTEST"):
             selftest_stage(run, pid)
     except AnalysisError as e:
